@@ -34,6 +34,8 @@ def setups(tier):
     # update 1 (one job) has already run to completion, so the batch is complete; update 2 adds only a job group
     s.append(('done1+empty_groups', 'u1_single', 'u2_empty_groups_only',
               [('sched', 0, 'i1'), ('complete', 1, 'A001xx', 'i1', 'Success', 10, 20)]))
+    # update 1 inserts a parentless always-run job directly as Ready: what _create_jobs itself writes into the counters is final
+    s.append(('roots_ar+child_of_1', 'u1_roots_ar', 'u2_child_of_1', []))
     if tier != 'quick':
         s += [
             ('fork_ar+group_two_bunches', 'u1_fork_ar', 'u2_group_two_bunches', []),
